@@ -65,7 +65,8 @@ func HKDFHash(h string) hkdfprf.HashType {
 
 // PRFKey builds the key object of the per-type key package.
 func PRFKey(c PRFCfg) (key.Key, error) {
-	kb := vt.Unhex(c.Key)
+	kb := vt.Unhex(c.Key) // a fresh buffer, scribbled over once the key object exists
+	defer Scribble(kb)
 	switch c.Alg {
 	case "HMAC":
 		p, err := hmacprf.NewParameters(len(kb), hmacHash(c.Hash))
@@ -80,6 +81,7 @@ func PRFKey(c PRFCfg) (key.Key, error) {
 		if c.SaltNil {
 			salt = nil
 		}
+		defer Scribble(salt)
 		p, err := hkdfprf.NewParameters(len(kb), HKDFHash(c.Hash), salt)
 		if err != nil {
 			return nil, err
@@ -150,4 +152,72 @@ func Handle(ents []Ent) (*keyset.Handle, error) {
 		}
 	}
 	return insecurecleartextkeyset.Read(&keyset.MemReaderWriter{Keyset: ks})
+}
+
+// ---- adversarial caller buffers -------------------------------------------------------------
+//
+// Every byte string handed to Tink lives in a driver-owned, REUSED backing array (one Arena per argument role):
+// successive calls overwrite the same memory with the next input, and after every constructor / call the driver
+// scribbles over what it passed. A primitive that keeps a reference to a caller buffer, caches by comparing with an
+// uncopied slice, or returns memory aliasing an input then computes with / returns the wrong bytes, which the
+// reference (fed from pristine copies taken before the call) exposes. Outputs must be rendered AFTER the scribble.
+
+// Arena is the reused backing array of one argument role.
+type Arena struct {
+	mem []byte
+	gen byte
+}
+
+// Load overwrites the arena with v and returns the slice to hand to Tink (nil stays nil). The returned slice keeps
+// spare capacity on purpose.
+func (a *Arena) Load(v []byte) []byte {
+	if v == nil {
+		return nil
+	}
+	if cap(a.mem) < len(v) {
+		a.mem = make([]byte, len(v)*2+64)
+	}
+	a.mem = a.mem[:cap(a.mem)]
+	b := a.mem[:len(v)]
+	copy(b, v)
+	return b
+}
+
+// Scribble overwrites the whole arena (used part and spare capacity) with a changing pattern.
+func (a *Arena) Scribble() {
+	a.gen++
+	m := a.mem[:cap(a.mem)]
+	for i := range m {
+		m[i] = 0xa5 ^ a.gen ^ byte(i*7)
+	}
+}
+
+// Scribble overwrites one-shot buffers (constructor arguments) after use.
+func Scribble(bs ...[]byte) {
+	for _, b := range bs {
+		b = b[:cap(b)]
+		for i := range b {
+			b[i] = 0x5c ^ byte(i*13)
+		}
+	}
+}
+
+// Arenas is a set of arenas by role name.
+type Arenas map[string]*Arena
+
+// In loads v into the arena of the given role.
+func (as Arenas) In(role string, v []byte) []byte {
+	a := as[role]
+	if a == nil {
+		a = &Arena{}
+		as[role] = a
+	}
+	return a.Load(v)
+}
+
+// ScribbleAll scribbles every arena of the set.
+func (as Arenas) ScribbleAll() {
+	for _, a := range as {
+		a.Scribble()
+	}
 }
